@@ -85,6 +85,26 @@ def main(repo, outdir):
                             "base_kernel_parameters": [p.id for p in info.base.kernel_parameters]}
     except Exception:
         index["errors"]["_reparam_witness"] = traceback.format_exc()
+    # C06 witness: reparameterised core_shell_sphere whose shell SLD is derived from two SLD-typed caller parameters
+    try:
+        base = core.load_model_info("core_shell_sphere")
+        pars = [["f_solv", "", 0.3, [0, 1], "", "solvent fraction in the shell"]]
+        translation = """
+            sld_shell = f_solv*sld_solvent + (1-f_solv)*sld_core
+            """
+        info = core.reparameterize(base, pars, translation, name="reparam_witness_sld", insert_after={"sld_core": "f_solv"})
+        src = generate.make_source(info)["dll"]
+        path = os.path.join(outdir, "_reparam_witness_sld.c")
+        with open(path, "w") as fd:
+            fd.write(src)
+        pt = info.parameters
+        index["witness_sld"] = {"unit": path, "base": "core_shell_sphere", "new": ["f_solv"], "replaced": ["sld_shell"],
+                                "kernel_parameters": [p.id for p in pt.kernel_parameters],
+                                "types": {p.id: p.type for p in pt.kernel_parameters},
+                                "base_kernel_parameters": [p.id for p in info.base.kernel_parameters],
+                                "base_types": {p.id: p.type for p in info.base.kernel_parameters}}
+    except Exception:
+        index["errors"]["_reparam_witness_sld"] = traceback.format_exc()
     with open(os.path.join(outdir, "index.json"), "w") as fd:
         json.dump(index, fd)
 
